@@ -8,6 +8,9 @@ quantem returns (never by re-running quantem code):
   ortho  ProbePixelated.probe / _probe_orthogonalization_constraint on mode stacks whose Gram matrix is
          prescribed by construction
   init   ProbePixelated.set_initial_probe (-> _apply_weights): total intensity and mode weights
+  obj_multi / tomo_multi   2-3 models of one family alive together, constructed / configured / read in
+         a drawn interleaving; every model is judged against its OWN requested settings (shared or
+         aliased constraint state only shows when instances are interleaved)
 """
 
 from __future__ import annotations
@@ -79,11 +82,13 @@ def _mag_range(draw):
 
 
 @st.composite
-def obj_cases(draw, ctx=None):
-    obj_type = draw(st.sampled_from(["complex", "pure_phase", "potential"]))
-    S = draw(SLICES)
-    h = draw(SIDES)
-    w = draw(SIDES)
+def obj_cases(draw, ctx=None, obj_type=None, min_slices=1, force=None, max_side=12):
+    """One ObjectPixelated model description.  `obj_type`, `min_slices` and `force` (constraint
+    entries that must be present with that value) are used by the multi-instance generator."""
+    obj_type = obj_type or draw(st.sampled_from(["complex", "pure_phase", "potential"]))
+    S = max(draw(SLICES), min_slices)
+    h = min(draw(SIDES), max_side)
+    w = min(draw(SIDES), max_side)
     case = {
         "kind": "obj",
         "obj_type": obj_type,
@@ -117,6 +122,7 @@ def obj_cases(draw, ctx=None):
         cons.update({"gaussian_sigma": None, "q_lowpass": None, "q_highpass": None})
     elif extra == "soft":  # soft-constraint weights must not influence the hard constraints
         cons.update({"tv_weight_xy": 0.1, "tv_weight_z": 0.2, "surface_zero_weight": 0.3})
+    cons.update(force or {})
     case["constraints"] = cons
     eff = dict(OBJ_DEFAULTS, **cons)
 
@@ -162,6 +168,104 @@ def tomo_cases(draw):
         "shrinkage": shr,
         "set_via": draw(st.sampled_from(["setter", "add"])),
     }
+
+
+def _merge(draw, seqs):
+    """A drawn interleaving of the per-model operation sequences (each keeps its own order)."""
+    tokens = [i for i, q in enumerate(seqs) for _ in q]
+    perm = draw(st.permutations(tokens)) if tokens else []
+    pos = [0] * len(seqs)
+    out = []
+    for i in perm:
+        out.append(seqs[i][pos[i]])
+        pos[i] += 1
+    return out
+
+
+def _final_reads(ops, n):
+    """Every model is read at the end, the first-built ones last."""
+    built = []
+    for op in ops:
+        if op[0] == "construct" and op[1] not in built:
+            built.append(op[1])
+    return [["read", i] for i in reversed(built)]
+
+
+@st.composite
+def obj_multi_cases(draw, ctx=None):
+    """2-3 ObjectPixelated models alive at the same time with different constraint settings,
+    constructed / configured / read in a drawn interleaving."""
+    n = draw(st.sampled_from([2, 2, 3]))
+    contrast = draw(st.sampled_from(["identical_slices", "positivity", "identical_slices", "positivity", "free"]))
+    a = draw(st.integers(0, n - 1))  # the model that requests the setting ...
+    b = (a + 1 + draw(st.integers(0, n - 2))) % n  # ... and one that explicitly declines it
+    models = []
+    for i in range(n):
+        kw = {}
+        if contrast == "identical_slices":
+            if i == a:
+                kw = dict(min_slices=2, force={"identical_slices": True})
+            elif i == b:
+                kw = dict(force={"identical_slices": False})
+        elif contrast == "positivity":
+            if i == a:
+                kw = dict(obj_type="potential", force={"positivity": True})
+            elif i == b:
+                kw = dict(obj_type=draw(st.sampled_from(["potential", "potential", "complex"])), force={"positivity": False})
+        m = draw(obj_cases(ctx, max_side=6, **kw))  # small fields keep the group cheap
+        models.append(m)
+    seqs = []
+    for i, m in enumerate(models):
+        q = [["construct", i]]
+        conf = []
+        if m["set_via"] == "setter":
+            conf.append(["set", i])
+        else:
+            conf += [["add", i, k] for k in m["constraints"]]
+        if m["mask"]["mode"] != "none":
+            conf.append(["mask", i])
+        q += draw(st.permutations(conf)) if conf else []
+        if draw(st.booleans()):  # an early read: A.obj, then others are built/configured, then A.obj again
+            q.append(["read", i])
+        seqs.append(q)
+    ops = _merge(draw, seqs)
+    ops += _final_reads(ops, n)
+    return {"kind": "obj_multi", "contrast": contrast, "models": models, "ops": [list(o) for o in ops]}
+
+
+@st.composite
+def tomo_multi_cases(draw):
+    """2-3 tomography ObjectVoxelwise models alive at the same time (see obj_multi_cases)."""
+    n = draw(st.sampled_from([2, 2, 3]))
+    models = []
+    for i in range(n):
+        m = draw(tomo_cases())
+        m["shape"] = [min(v, 4) for v in m["shape"]]
+        m["configure"] = draw(st.sampled_from([True, True, True, False]))  # False: left at its defaults
+        models.append(m)
+    # by construction one model requests positivity and another one does not
+    a = draw(st.integers(0, n - 1))
+    b = (a + 1 + draw(st.integers(0, n - 2))) % n
+    models[a]["positivity"] = True
+    models[a]["configure"] = True
+    if models[b]["configure"]:
+        models[b]["positivity"] = False
+    seqs = []
+    for i, m in enumerate(models):
+        q = [["construct", i]]
+        rest = [["param", i]]  # the optimiser writes the voxel values
+        if m["configure"]:
+            if m["set_via"] == "setter":
+                rest.append(["set", i])
+            else:
+                rest += [["add", i, k] for k in ("positivity", "shrinkage")]
+        q += draw(st.permutations(rest))
+        if draw(st.booleans()):
+            q.append(["read", i])
+        seqs.append(q)
+    ops = _merge(draw, seqs)
+    ops += _final_reads(ops, n)
+    return {"kind": "tomo_multi", "models": models, "ops": [list(o) for o in ops]}
 
 
 @st.composite
@@ -268,19 +372,13 @@ def _fin(case, what, arr):
         raise core.Violation("%s: result is not finite" % what, case)
 
 
-def _check_obj(ctx, case):
-    torch = _torch()
-    from quantem.diffractive_imaging.object_models import ObjectPixelated
-
-    t = case["obj_type"]
-    S = case["S"]
-    raw = B.raw_object(case)
-    mask = B.fov_mask(case)
-    cons = dict(case["constraints"])
+def _obj_facts(spec):
+    """Harness-side facts about one ObjectPixelated description."""
+    t = spec["obj_type"]
+    raw = B.raw_object(spec)
+    mask = B.fov_mask(spec)
+    cons = dict(spec["constraints"])
     eff = dict(OBJ_DEFAULTS, **cons)
-    tie = bool(eff["identical_slices"]) and S > 1
-    fov = bool(eff["apply_fov_mask"]) and mask is not None
-
     # classification on the values as the model stores them (float32)
     if t == "potential":
         r32 = raw.astype(np.float32)
@@ -288,59 +386,62 @@ def _check_obj(ctx, case):
     else:
         a32 = np.abs(raw.astype(np.complex64))
         nontrivial = bool((a32 > 1).any() and (a32 < 1).any())
-    classes = ["obj:" + t, "S>1" if S > 1 else "S=1", "route:" + case["route"], "mask:" + case["mask"]["mode"]]
-    for k in ("positivity", "fix_potential_baseline", "identical_slices", "apply_fov_mask"):
-        if k in cons:
-            classes.append("%s=%s" % (k, cons[k]))
-    if case["reapply"]:
-        classes.append("reapply")
-    if tie:
-        classes.append("tied")
-    ctx.record(case, nontrivial, classes)
+    return {"raw": raw, "mask": mask, "cons": cons, "eff": eff, "nontrivial": nontrivial,
+            "tie": bool(eff["identical_slices"]) and spec["S"] > 1}
 
-    with ctx.sut(case, "ObjectPixelated: build, set constraints/mask, read obj"):
-        thick = 1.0 if S > 1 else None
-        if case["via"] == "from_array":
-            model = ObjectPixelated.from_array(raw, slice_thicknesses=thick, obj_type=t, rng=0)
-            model._initialize_obj(raw.shape, (1.0, 1.0))
-        else:  # the optimiser has driven the parameters somewhere: overwrite them in place
-            if case["via"] == "param_copy":
-                start = np.ones(raw.shape) * (0.5 if t == "potential" else 1.0 + 0.0j)
-                model = ObjectPixelated.from_array(start, slice_thicknesses=thick, obj_type=t, rng=0)
-            elif case["via"] == "uniform_copy":
-                model = ObjectPixelated.from_uniform(num_slices=S, slice_thicknesses=thick, obj_type=t, rng=0)
-            else:
-                model = ObjectPixelated.from_random(num_slices=S, slice_thicknesses=thick, obj_type=t, rng=0)
-            model._initialize_obj(raw.shape, (1.0, 1.0))
-            with torch.no_grad():
-                model.params.copy_(torch.tensor(raw, dtype=model.params.dtype))
-        if case["set_via"] == "setter":
-            model.constraints = cons
-        else:
-            for k, v in cons.items():
-                model.add_constraint(k, v)
-        if mask is not None:
-            model.mask = mask.astype(np.float32)
-        marg = model.mask if mask is not None else None
-        if case["route"] == "prop":
-            o1t = model.obj
-        else:
-            o1t = model.apply_hard_constraints(model.params, mask=marg)
-        o1t = o1t.detach().clone()
-        o2t = None
-        if case["reapply"]:
-            o2t = model.apply_hard_constraints(o1t.clone(), mask=marg).detach().clone()
 
+def _obj_construct(spec, raw):
+    torch = _torch()
+    from quantem.diffractive_imaging.object_models import ObjectPixelated
+
+    t, S = spec["obj_type"], spec["S"]
+    thick = 1.0 if S > 1 else None
+    if spec["via"] == "from_array":
+        model = ObjectPixelated.from_array(raw, slice_thicknesses=thick, obj_type=t, rng=0)
+        model._initialize_obj(raw.shape, (1.0, 1.0))
+        return model
+    # the optimiser has driven the parameters somewhere: overwrite them in place
+    if spec["via"] == "param_copy":
+        start = np.ones(raw.shape) * (0.5 if t == "potential" else 1.0 + 0.0j)
+        model = ObjectPixelated.from_array(start, slice_thicknesses=thick, obj_type=t, rng=0)
+    elif spec["via"] == "uniform_copy":
+        model = ObjectPixelated.from_uniform(num_slices=S, slice_thicknesses=thick, obj_type=t, rng=0)
+    else:
+        model = ObjectPixelated.from_random(num_slices=S, slice_thicknesses=thick, obj_type=t, rng=0)
+    model._initialize_obj(raw.shape, (1.0, 1.0))
+    with torch.no_grad():
+        model.params.copy_(torch.tensor(raw, dtype=model.params.dtype))
+    return model
+
+
+def _obj_read(model, spec, has_mask):
+    marg = model.mask if has_mask else None
+    if spec["route"] == "prop":
+        o1t = model.obj
+    else:
+        o1t = model.apply_hard_constraints(model.params, mask=marg)
+    o1t = o1t.detach().clone()
+    o2t = None
+    if spec["reapply"]:
+        o2t = model.apply_hard_constraints(o1t.clone(), mask=marg).detach().clone()
+    return o1t, o2t
+
+
+def _obj_judge(ctx, case, spec, facts, o1t, o2t, who=""):
+    """The laws of the property for one constrained object, against the settings requested for it."""
+    t, S = spec["obj_type"], spec["S"]
+    raw, mask, eff, tie = facts["raw"], facts["mask"], facts["eff"], facts["tie"]
+    fov = bool(eff["apply_fov_mask"]) and mask is not None
     o1 = o1t.numpy()
     if tuple(o1.shape) != tuple(raw.shape):
-        raise core.Violation("constrained object has shape %s, parameters %s" % (o1.shape, raw.shape), case)
-    _fin(case, "constrained object", o1)
+        raise core.Violation("%sconstrained object has shape %s, parameters %s" % (who, o1.shape, raw.shape), case)
+    _fin(case, who + "constrained object", o1)
     amp = np.abs(o1.astype(np.complex128))
     if t == "complex":
         ex = float(amp.max()) - 1.0
         ctx.extra["max_amp_excess"] = max(ctx.extra.get("max_amp_excess", -1.0), ex)
         if ex > EPS_AMP:
-            raise core.Violation("complex object: max |o| = %.9g > 1" % amp.max(), case)
+            raise core.Violation("%scomplex object: max |o| = %.9g > 1" % (who, amp.max()), case)
     elif t == "pure_phase":
         if not tie:  # slice tying is only claimed to tie slices (a mean of phasors is shorter)
             dev = float(np.max(np.abs(amp - 1.0)))
@@ -348,29 +449,131 @@ def _check_obj(ctx, case):
             if dev > EPS_AMP:
                 i = np.unravel_index(int(np.argmax(np.abs(amp - 1.0))), amp.shape)
                 extra = " (apply_fov_mask with mask=%.6g there)" % float(np.broadcast_to(mask, amp.shape)[i]) if fov else ""
-                raise core.Violation("pure_phase object: |o| = %.9g != 1 at %s%s" % (amp[i], tuple(int(v) for v in i), extra), case)
+                raise core.Violation("%spure_phase object: |o| = %.9g != 1 at %s%s" % (who, amp[i], tuple(int(v) for v in i), extra), case)
     else:
         if np.iscomplexobj(o1):
-            raise core.Violation("potential object came back complex", case)
+            raise core.Violation("%spotential object came back complex" % who, case)
         if eff["positivity"] and float(o1.min()) < 0.0:
-            raise core.Violation("potential object under positivity has min %.9g < 0" % o1.min(), case)
+            raise core.Violation("%spotential object under positivity has min %.9g < 0" % (who, o1.min()), case)
     if tie:
         if not all(np.array_equal(o1[s], o1[0]) for s in range(1, S)):
             d = max(float(np.max(np.abs(o1[s] - o1[0]))) for s in range(1, S))
-            raise core.Violation("identical_slices requested but slices differ by up to %.6g" % d, case)
+            raise core.Violation("%sidentical_slices requested but slices differ by up to %.6g" % (who, d), case)
     if o2t is not None and not (t == "pure_phase" and tie):
         o2 = o2t.numpy()
-        _fin(case, "re-constrained object", o2)
+        _fin(case, who + "re-constrained object", o2)
         amp2 = np.abs(o2.astype(np.complex128))
         d = float(np.max(np.abs(amp2 - amp)))
         ctx.extra["max_idem_dev"] = max(ctx.extra.get("max_idem_dev", 0.0), d)
         if d > EPS_IDEM:
             i = np.unravel_index(int(np.argmax(np.abs(amp2 - amp))), amp.shape)
             raise core.Violation(
-                "re-applying the constraint changed the amplitude: |C(x)| = %.9g, |C(C(x))| = %.9g at %s"
-                % (amp[i], amp2[i], tuple(int(v) for v in i)),
+                "%sre-applying the constraint changed the amplitude: |C(x)| = %.9g, |C(C(x))| = %.9g at %s"
+                % (who, amp[i], amp2[i], tuple(int(v) for v in i)),
                 case,
             )
+
+
+def _check_obj(ctx, case):
+    f = _obj_facts(case)
+    cons, mask = f["cons"], f["mask"]
+    classes = ["obj:" + case["obj_type"], "S>1" if case["S"] > 1 else "S=1", "route:" + case["route"], "mask:" + case["mask"]["mode"]]
+    for k in ("positivity", "fix_potential_baseline", "identical_slices", "apply_fov_mask"):
+        if k in cons:
+            classes.append("%s=%s" % (k, cons[k]))
+    if case["reapply"]:
+        classes.append("reapply")
+    if f["tie"]:
+        classes.append("tied")
+    ctx.record(case, f["nontrivial"], classes)
+
+    with ctx.sut(case, "ObjectPixelated: build, set constraints/mask, read obj"):
+        model = _obj_construct(case, f["raw"])
+        if case["set_via"] == "setter":
+            model.constraints = cons
+        else:
+            for k, v in cons.items():
+                model.add_constraint(k, v)
+        if mask is not None:
+            model.mask = mask.astype(np.float32)
+        o1t, o2t = _obj_read(model, case, mask is not None)
+    _obj_judge(ctx, case, case, f, o1t, o2t)
+
+
+def _multi_classes(prefix, ops, n):
+    """Labels describing the interleaving (harness-side, from the op list only)."""
+    cls = ["multi_instance:%s" % prefix, "multi_instance:%s:n=%d" % (prefix, n)]
+    first_read = {}
+    reread_after_other = False
+    conf_after_other_built = False
+    built = []
+    for k, op in enumerate(ops):
+        if op[0] == "construct":
+            built.append(op[1])
+        elif op[0] in ("set", "add", "mask", "param"):
+            if built and built[-1] != op[1]:
+                conf_after_other_built = True
+        elif op[0] == "read":
+            i = op[1]
+            if i in first_read:
+                between = ops[first_read[i] + 1 : k]
+                if any(o[0] in ("construct", "set", "add") and o[1] != i for o in between):
+                    reread_after_other = True
+            else:
+                first_read[i] = k
+    if reread_after_other:
+        cls.append("multi_instance:%s:read-other_changes-read_again" % prefix)
+    if conf_after_other_built:
+        cls.append("multi_instance:%s:configured_after_another_was_built" % prefix)
+    return cls
+
+
+def _check_obj_multi(ctx, case):
+    specs = case["models"]
+    facts = [_obj_facts(m) for m in specs]
+    n = len(specs)
+    settings = {tuple(sorted((k, repr(f["eff"][k])) for k in ("positivity", "identical_slices", "apply_fov_mask", "fix_potential_baseline"))) for f in facts}
+    ctx.record(case, n >= 2 and len(settings) > 1 and any(f["nontrivial"] for f in facts),
+               _multi_classes("obj", case["ops"], n) + ["multi_instance:obj:contrast=" + case.get("contrast", "free")])
+    models = {}
+    reads = []
+    with ctx.sut(case, "several ObjectPixelated models alive together"):
+        for op in case["ops"]:
+            i = op[1]
+            spec, f = specs[i], facts[i]
+            if op[0] == "construct":
+                models[i] = _obj_construct(spec, f["raw"])
+            elif op[0] == "set":
+                models[i].constraints = dict(f["cons"])
+            elif op[0] == "add":
+                models[i].add_constraint(op[2], f["cons"][op[2]])
+            elif op[0] == "mask":
+                models[i].mask = f["mask"].astype(np.float32)
+            elif op[0] == "read":
+                reads.append((i, _obj_read(models[i], spec, f["mask"] is not None)))
+            else:
+                raise core.HarnessError("unknown op %r" % (op,))
+    seen = {}
+    for i, (o1t, o2t) in reads:
+        seen[i] = seen.get(i, 0) + 1
+        who = "model %d of %d (read #%d, other models alive): " % (i, n, seen[i])
+        _obj_judge(ctx, case, specs[i], facts[i], o1t, o2t, who)
+
+
+def _tomo_raw(spec):
+    shape = tuple(spec["shape"])
+    rc = {"seed": spec["seed"], "S": shape[0], "h": shape[1], "w": shape[2], "mag": spec["mag"],
+          "special": spec["special"], "phase": "uniform", "obj_type": "potential"}
+    return B.raw_object(rc).astype(np.float32)
+
+
+def _tomo_judge(case, spec, out, positivity, who=""):
+    shape = tuple(spec["shape"])
+    if tuple(out.shape) != shape:
+        raise core.Violation("%stomography object changed shape %s -> %s" % (who, shape, out.shape), case)
+    _fin(case, who + "tomography object", out)
+    if positivity and float(out.min()) < 0.0:
+        raise core.Violation("%stomography object under positivity has min %.9g < 0" % (who, out.min()), case)
 
 
 def _check_tomo(ctx, case):
@@ -378,9 +581,7 @@ def _check_tomo(ctx, case):
     from quantem.tomography.object_models import ObjectVoxelwise
 
     shape = tuple(case["shape"])
-    rc = {"seed": case["seed"], "S": shape[0], "h": shape[1], "w": shape[2], "mag": case["mag"],
-          "special": case["special"], "phase": "uniform", "obj_type": "potential"}
-    raw = B.raw_object(rc).astype(np.float32)
+    raw = _tomo_raw(case)
     shr = case["shrinkage"]
     nontrivial = bool((raw < 0).any() and (raw > 0).any())
     ctx.record(case, nontrivial, ["tomo", "tomo:positivity=%s" % case["positivity"], "tomo:shrinkage" if shr else "tomo:noshrink"])
@@ -394,11 +595,58 @@ def _check_tomo(ctx, case):
                 model.add_hard_constraint(k, v)
         model.obj = torch.tensor(raw)
         out = model.obj.detach().numpy()
-    if tuple(out.shape) != shape:
-        raise core.Violation("tomography object changed shape %s -> %s" % (shape, out.shape), case)
-    _fin(case, "tomography object", out)
-    if case["positivity"] and float(out.min()) < 0.0:
-        raise core.Violation("tomography object under positivity has min %.9g < 0" % out.min(), case)
+    _tomo_judge(case, case, out, case["positivity"])
+
+
+def _check_tomo_multi(ctx, case):
+    torch = _torch()
+    from quantem.tomography.object_models import ObjectVoxelwise
+
+    specs = case["models"]
+    n = len(specs)
+    raws = [_tomo_raw(m) for m in specs]
+    # requested settings: what the model's own configuration says, else the documented defaults
+    want_pos = [bool(m["positivity"]) if m["configure"] else False for m in specs]
+    mixed = [bool((r < 0).any() and (r > 0).any()) for r in raws]
+    ctx.record(case, n >= 2 and len(set(want_pos)) > 1 and any(p and x for p, x in zip(want_pos, mixed)),
+               _multi_classes("tomo", case["ops"], n))
+    models = {}
+    reads = []
+    with ctx.sut(case, "several tomography ObjectVoxelwise models alive together"):
+        for op in case["ops"]:
+            i = op[1]
+            spec = specs[i]
+            if op[0] == "construct":
+                models[i] = ObjectVoxelwise(volume_shape=tuple(spec["shape"]), device="cpu")
+            elif op[0] == "set":
+                models[i].hard_constraints = {"positivity": spec["positivity"], "shrinkage": spec["shrinkage"]}
+            elif op[0] == "add":
+                models[i].add_hard_constraint(op[2], spec[op[2]])
+            elif op[0] == "param":
+                models[i].obj = torch.tensor(raws[i])
+            elif op[0] == "read":
+                # the settings requested for this model so far ("add" configures one key at a time)
+                reads.append((i, models[i].obj.detach().numpy().copy(), _tomo_pos_so_far(case["ops"], op, i, spec)))
+            else:
+                raise core.HarnessError("unknown op %r" % (op,))
+    seen = {}
+    for i, out, pos in reads:
+        seen[i] = seen.get(i, 0) + 1
+        who = "model %d of %d (read #%d, other models alive): " % (i, n, seen[i])
+        _tomo_judge(case, specs[i], out, pos, who)
+
+
+def _ops_before(ops, op):
+    k = next(j for j, o in enumerate(ops) if o is op)
+    return ops[:k]
+
+
+def _tomo_pos_so_far(ops, op, i, spec):
+    """Has positivity been requested for model i by the time of this read?"""
+    for o in _ops_before(ops, op):
+        if o[1] == i and (o[0] == "set" or (o[0] == "add" and o[2] == "positivity")):
+            return bool(spec["positivity"])
+    return False
 
 
 def _orth_tol(case):
@@ -561,11 +809,17 @@ def check(ctx, case):
         return _check_ortho(ctx, case)
     if k == "init":
         return _check_init(ctx, case)
+    if k == "obj_multi":
+        return _check_obj_multi(ctx, case)
+    if k == "tomo_multi":
+        return _check_tomo_multi(ctx, case)
     raise core.HarnessError("unknown C10 case kind %r" % (k,))
 
 
 def search(ctx):
-    core.run_given(ctx, "obj", obj_cases(ctx), lambda c: check(ctx, c), ctx.n(2500, 25000))
-    core.run_given(ctx, "ortho", ortho_cases(), lambda c: check(ctx, c), ctx.n(1500, 15000))
-    core.run_given(ctx, "init", init_cases(), lambda c: check(ctx, c), ctx.n(800, 8000))
-    core.run_given(ctx, "tomo", tomo_cases(), lambda c: check(ctx, c), ctx.n(400, 4000))
+    core.run_given(ctx, "obj", obj_cases(ctx), lambda c: check(ctx, c), ctx.n(1600, 16000))
+    core.run_given(ctx, "obj_multi", obj_multi_cases(ctx), lambda c: check(ctx, c), ctx.n(350, 3500))
+    core.run_given(ctx, "ortho", ortho_cases(), lambda c: check(ctx, c), ctx.n(1000, 10000))
+    core.run_given(ctx, "init", init_cases(), lambda c: check(ctx, c), ctx.n(500, 5000))
+    core.run_given(ctx, "tomo", tomo_cases(), lambda c: check(ctx, c), ctx.n(300, 3000))
+    core.run_given(ctx, "tomo_multi", tomo_multi_cases(), lambda c: check(ctx, c), ctx.n(350, 3500))
